@@ -111,8 +111,8 @@ func caseGen() *rapid.Generator[Case] {
 		}
 		return short.Draw(t, "short")
 	})
-	sg := gen.ScriptGen(gen.ScriptOpts{Item: item, HdrItem: key, MinOps: 1, MaxOps: max, MaxCells: 3, HdrCells: [2]int{3, 5}, ForceHdr: true, NoSepAdd: true})
-	nohdr := gen.ScriptGen(gen.ScriptOpts{Item: item, MinOps: 1, MaxOps: max, MaxCells: 3, NoHdr: true, NoSepAdd: true})
+	sg := gen.ScriptGen(gen.ScriptOpts{AllowProps: true, AllowRowErr: true, Item: item, HdrItem: key, MinOps: 1, MaxOps: max, MaxCells: 3, HdrCells: [2]int{3, 5}, ForceHdr: true, NoSepAdd: true})
+	nohdr := gen.ScriptGen(gen.ScriptOpts{AllowProps: true, AllowRowErr: true, Item: item, MinOps: 1, MaxOps: max, MaxCells: 3, NoHdr: true, NoSepAdd: true})
 	return rapid.Custom(func(t *rapid.T) Case {
 		c := Case{Style: rapid.SampledFrom(Styles).Draw(t, "style"), Align: rapid.SliceOfN(rapid.IntRange(0, 3), 0, 4).Draw(t, "align")}
 		if rapid.IntRange(0, 4).Draw(t, "headerless") == 0 {
@@ -120,7 +120,7 @@ func caseGen() *rapid.Generator[Case] {
 		} else {
 			c.Script = sg.Draw(t, "script")
 		}
-		c.Err = rapid.SampledFrom([]string{"", "", "", "eof", "short", "closed", "epipe", "wrapped", "nocause", "deadline", "canceled"}).Draw(t, "err")
+		c.Err = rapid.SampledFrom([]string{"", "", "", "eof", "short", "closed", "epipe", "wrapped", "nocause", "deadline", "canceled", "list"}).Draw(t, "err")
 		c.Rich = rapid.IntRange(0, 3).Draw(t, "rich") == 0
 		bigOneIn := 250
 		if h.Thorough() {
@@ -146,6 +146,39 @@ func caseGen() *rapid.Generator[Case] {
 		}
 		return c
 	})
+}
+
+// ErrKinds: every error value the failing writer can report.
+var ErrKinds = []string{"", "eof", "short", "closed", "epipe", "wrapped", "nocause", "deadline", "canceled", "list"}
+
+// TestCross: three fixed tables (headed with a separator and a multi-line cell; header narrower than the rows;
+// headerless) x every renderer x every error value x plain/rich writer, every fault point of each.
+func TestCross(t *testing.T) {
+	s := gen.S
+	tables := [][]gen.Op{
+		{{K: "hdr", Items: []gen.Item{s("k"), s("name"), s("n")}}, {K: "rowitems", Items: []gen.Item{s("a"), s("b\nc"), {K: "int", N: 1}}}, {K: "sep"}, {K: "rowitems", Items: []gen.Item{s("\"q\""), s("<&>|")}}},
+		{{K: "hdr", Items: []gen.Item{s("id"), s("what")}}, {K: "rowitems", Items: []gen.Item{s("1"), s("x"), s("beyond the header")}}, {K: "rowitems"}},
+		{{K: "rowitems", Items: []gen.Item{s("no"), s("header")}}, {K: "appendnew"}, {K: "rowadd", Ref: -1, Items: []gen.Item{s("late")}}},
+	}
+	shard, shards := h.Shard()
+	i := 0
+	for _, ops := range tables {
+		for _, st := range Styles {
+			for _, ek := range ErrKinds {
+				for _, rich := range []bool{false, true} {
+					i++
+					if i%shards != shard {
+						continue
+					}
+					c := Case{Script: gen.Script{Ops: ops}, Style: st, Err: ek, Rich: rich, Align: []int{0, 2, 3}}
+					if v := evalAll(c); v != nil {
+						t.Fatalf("VIOLATION %s (detail in the replay file)", ID)
+					}
+				}
+			}
+		}
+	}
+	ev.R().Sub(ev.SubRun{Name: "cross", Bound: "3 fixed tables x 8 renderers x 10 error values x {plain, rich writer}, every write index x 3 failure modes of each", Cases: faultPoints, Exhaustive: true})
 }
 
 func TestProp(t *testing.T) {
